@@ -39,6 +39,7 @@ fn main() {
             "C03" => vm::run_c03(&nums),
             "ASM" => asm::run_asm(&nums),
             "DBG" => dbg::run_dbg(&nums),
+            "DBGT" => dbg::run_dbgt(&nums),
             "C20" => edit::run_c20(&nums),
             "C14" => cmd::run_c14(&nums),
             other => panic!("unknown case kind {other}"),
